@@ -16,6 +16,7 @@ type GenOpts struct {
 	Fault     bool     // C15: divider fault plan
 	AnyH      bool     // C15: H may be below the minimum the constructor accepts
 	StopOps   bool     // C16: v1 Stop / cancel inserted
+	StopHalf  bool     // with StopOps: only about half of the v1 scripts are stopped, the others end gracefully
 	AddRemove bool     // C17: v1 AddInput / RemoveInput ops
 	NoZero    bool     // exclude configurations in which a configured priority has a zero strategic share (v1 finding F4)
 	Sparse    bool     // C06: sparse arrivals, minimal H, single active priority
@@ -239,7 +240,7 @@ func Gen(o GenOpts) *rapid.Generator[Script] {
 			return rapid.SliceOfN(rapid.IntRange(0, 3*h+3), k, k).Draw(t, "picks")
 		}
 		stopAt := -1
-		if o.StopOps && s.Ver == 1 {
+		if o.StopOps && s.Ver == 1 && (!o.StopHalf || rapid.Bool().Draw(t, "stopped")) {
 			stopAt = rapid.IntRange(0, nops).Draw(t, "stopat")
 			s.Epilogue = "none"
 		}
@@ -307,7 +308,7 @@ func Gen(o GenOpts) *rapid.Generator[Script] {
 				s.Ops = append(s.Ops, Op{K: "D"}, Op{K: "FM", Picks: []int{0, 1, 2, 3, 4, 5, 6, 7}[:min(8, h)]})
 			}
 		}
-		if o.StopOps && s.Ver == 1 && stopAt >= nops {
+		if stopAt >= nops && stopAt >= 0 {
 			s.Ops = append(s.Ops, Op{K: pick(t, "stopkind2", "S", "S", "K"), N: pick(t, "stopcalls2", 1, 1, 2)})
 		}
 		if o.Fault {
@@ -316,6 +317,7 @@ func Gen(o GenOpts) *rapid.Generator[Script] {
 				Over:  rapid.Bool().Draw(t, "fover"),
 				Delta: uint(rapid.IntRange(1, 3).Draw(t, "fdelta")),
 			}
+			s.Fault.Outside = rapid.IntRange(0, 3).Draw(t, "foutside") == 0
 			if rapid.IntRange(0, 7).Draw(t, "fnone") == 0 {
 				s.Fault = nil
 			}
